@@ -143,7 +143,14 @@ pub struct Case {
     /// directed prefix of the schedule: `(actor, point)` = keep releasing threads of `actor`
     /// until one of them waits at `point` (`end` = until it has nothing enabled)
     pub script: Vec<(usize, String)>,
+    /// storage option `target_rowset_size` in bytes (0 = the 256 MB default): with a tiny value a
+    /// compaction pass selects a strict SUBSET of a table's row-sets (an oversized row-set never
+    /// fits the budget).  Row-sets with >= `BIG_ROWS` rows are the oversized ones.
+    pub target: usize,
 }
+
+/// see `Case::target`
+pub const BIG_ROWS: usize = 100;
 
 pub const ALL_GATES: &[&str] = &[
     "cmd.begin",
@@ -173,7 +180,7 @@ impl Case {
     pub fn to_sexp(&self) -> String {
         let cmds = |v: &Vec<Cmd>| v.iter().map(|c| c.desc()).collect::<Vec<_>>().join(" ");
         format!(
-            "(case {} (gate {}) (setup {}) (actors {}) (sched {}) (rng {}) (sticky {}) (script {}))",
+            "(case {} (gate {}) (setup {}) (actors {}) (sched {}) (rng {}) (sticky {}) (script {}) (target {}))",
             self.id,
             self.gate.join(" "),
             cmds(&self.setup),
@@ -181,7 +188,8 @@ impl Case {
             self.sched.iter().map(|c| c.to_string()).collect::<Vec<_>>().join(" "),
             self.rng,
             self.sticky,
-            self.script.iter().map(|(a, p)| format!("{a}:{p}")).collect::<Vec<_>>().join(" ")
+            self.script.iter().map(|(a, p)| format!("{a}:{p}")).collect::<Vec<_>>().join(" "),
+            self.target
         )
     }
     pub fn parse(line: &str) -> Case {
@@ -197,6 +205,7 @@ impl Case {
             rng: 0,
             sticky: 0,
             script: vec![],
+            target: 0,
         };
         for f in &l[2..] {
             let f = f.as_list().unwrap();
@@ -219,6 +228,7 @@ impl Case {
                 "sched" => c.sched = atoms().map(|a| a.parse().unwrap()).collect(),
                 "rng" => c.rng = atoms().next().unwrap().parse().unwrap(),
                 "sticky" => c.sticky = atoms().next().unwrap().parse().unwrap(),
+                "target" => c.target = atoms().next().unwrap().parse().unwrap(),
                 "script" => {
                     c.script = atoms()
                         .map(|a| {
@@ -487,9 +497,16 @@ pub fn storage_of(db: &Database) -> Arc<SecondaryStorage> {
 }
 
 pub fn options(path: &Path) -> SecondaryStorageOptions {
+    options_with(path, 0)
+}
+
+pub fn options_with(path: &Path, target: usize) -> SecondaryStorageOptions {
     let mut o = SecondaryStorageOptions::default_for_cli();
     o.path = path.to_path_buf();
     o.cache_size = 1024;
+    if target > 0 {
+        o.target_rowset_size = target;
+    }
     o
 }
 
@@ -838,7 +855,9 @@ pub fn run_case(case: &Case, dir: &Path) -> Outcome2 {
 async fn run_case_async(case: &Case, dir: &Path) -> Outcome2 {
     *STATE.lock().unwrap_or_else(|e| e.into_inner()) = None;
     let db = Arc::new(
-        Database::verif_new_on_disk_nobg(options(dir)).await.expect("open fresh database"),
+        Database::verif_new_on_disk_nobg(options_with(dir, case.target))
+            .await
+            .expect("open fresh database"),
     );
     let storage = storage_of(&db);
     let mut st = State::default();
@@ -856,6 +875,12 @@ async fn run_case_async(case: &Case, dir: &Path) -> Outcome2 {
         reopen_status: String::new(),
         checks: vec![],
     };
+    if case.target > 0 {
+        // tells the model which row-sets the size-based selection of the compactor skips
+        with_state(|s| {
+            s.events.push(Ev { actor: 0, th: 0, name: "cfg.big".into(), detail: BIG_ROWS.to_string() })
+        });
+    }
     let mut rng = Rng::new(case.rng);
     let mut sched_pos = 0usize;
     let mut last_actor = usize::MAX;
@@ -1033,8 +1058,9 @@ async fn run_case_async(case: &Case, dir: &Path) -> Outcome2 {
     // reopen
     if out.deadlock.is_none() {
         let dir2 = dir.to_path_buf();
+        let target = case.target;
         let r = tokio::spawn(async move {
-            let db = match Database::verif_new_on_disk_nobg(options(&dir2)).await {
+            let db = match Database::verif_new_on_disk_nobg(options_with(&dir2, target)).await {
                 Ok(db) => Arc::new(db),
                 Err(e) => return (err_class(&e.to_string()), vec![]),
             };
